@@ -17,6 +17,8 @@ import (
 //
 // head:   adm mp=<config.MaxPeers> ip=<config.MaxPeersPerIP> D=<ban duration in clock units>
 //         [u=<milliseconds per clock unit>, default 3600000 (one hour); u=1 gives millisecond positions]
+//         [k=<n> sk=<minutes>: before the script n peers whose version timestamps were off by sk minutes have
+//         been seen (timeSource.AddTimeSample, as OnVersion does); bans run on the LOCAL clock regardless]
 // events: A<k>.<pid>.<h>   a NEW peer object <pid> of kind k (i inbound, o outbound, p persistent
 //                          outbound) from host <h> is delivered to handleAddPeerMsg
 //         C.<pid>          the connection of peer object <pid> drops (peer.Disconnect())
@@ -30,7 +32,6 @@ import (
 // and state = n<Count()>/I<inbound pids>/O<outbound pids>/P<persistent pids>/H<host:connectionCount,..>
 // /G<group:outboundGroups,..>/B<host:remaining ban units,..> (bans still in force); zero counters are not printed,
 // everything is sorted.  pids are the case's logical pids (the harness maps peer.ID() back).
-
 
 func c18HostIP(h int) string { return fmt.Sprintf("45.%d.%d.9", 10+h/3, 1+h%3) }
 
@@ -85,6 +86,12 @@ func c18RunAdm1(head []string, evs []string) (obs string, reliable bool) {
 	c18Unit := time.Duration(u) * time.Millisecond
 	a := p2p.VerifC18NewAdm(time.Duration(D) * c18Unit)
 	defer a.Close()
+	if k := c18Head(head, "k", 0); k > 0 && k <= 200 {
+		sk := c18Head(head, "sk", 0)
+		if sk >= -100000 && sk <= 100000 {
+			a.SeenSkewedPeers(k, time.Duration(sk)*time.Minute)
+		}
+	}
 	// logical clock (units) and, per banned host, the logical expiry measured from what the real
 	// handleBanPeerMsg stored
 	nowU := int64(0)
@@ -113,9 +120,9 @@ func c18RunAdm1(head []string, evs []string) (obs string, reliable bool) {
 			}
 		}
 	}
-	handle := map[int]int{}   // pid -> fixture handle
-	added := map[int]bool{}   // pid already delivered to Add once
-	byID := map[int32]int{}   // peer.ID() -> pid
+	handle := map[int]int{} // pid -> fixture handle
+	added := map[int]bool{} // pid already delivered to Add once
+	byID := map[int32]int{} // peer.ID() -> pid
 	get := func(pid int) (int, bool) {
 		if h, ok := handle[pid]; ok {
 			return h, true
@@ -436,6 +443,42 @@ func c18GenAdm(c *Ctx) error {
 			seen[in] = true
 			c.Case(in, c18RunAdm(strings.Fields(h2), evs))
 			c.Count("adm:ban-edge-ms")
+		}
+	}
+
+	// skewed peers: k peers whose clocks are off by d have been seen before the script (minute clock,
+	// 10-minute bans); the ban must still last exactly its duration on the local clock
+	for i, n := 0, c.Pick(36, 720); i < n; i++ {
+		k := []int{5, 7, 0, 5, 7, 6}[i%6]
+		sk := []int{-70, -60, 30, 0, 45, -70}[(i/6)%6]
+		h3 := fmt.Sprintf("adm mp=%d ip=%d D=10 u=60000 k=%d sk=%d", mp, ip, k, sk)
+		var evs []string
+		pidn := 0
+		add := func(host int) {
+			pidn++
+			evs = append(evs, fmt.Sprintf("A%c.%d.%d", "ioo"[c.Rng.Intn(3)], pidn, host))
+		}
+		if c.Rng.Intn(2) == 0 {
+			add(0)
+		}
+		evs = append(evs, "B0")
+		add(0) // right after the ban
+		for _, step := range []int{1, 4, 4, 1, 1, 20, 15, 30} {
+			if i >= 12 && c.Rng.Intn(4) == 0 {
+				continue
+			}
+			evs = append(evs, fmt.Sprintf("T%d", step))
+			add(0)
+			if c.Rng.Intn(8) == 0 {
+				evs = append(evs, "B1")
+				add(1)
+			}
+		}
+		in := h3 + ";" + strings.Join(evs, ";")
+		if !seen[in] {
+			seen[in] = true
+			c.Case(in, c18RunAdm(strings.Fields(h3), evs))
+			c.Count("adm:ban-skewed-peers")
 		}
 	}
 
